@@ -59,6 +59,8 @@ def base_case(draw, kind, tier):
     c["prune"] = draw(corpora.prune_params(fd, c["token_type"], p_each=0.1)) if draw(st.sampled_from([False, False, True])) else {}
     if kind == "ngram":
         c["ngram_size"] = draw(st.sampled_from([1, 2, 2, 3]))
+    # history: the estimator object may already have been fitted on another corpus (same tokens, other order / time scale)
+    c["refit"] = draw(st.booleans())
     return c
 
 
@@ -72,6 +74,13 @@ def judge(kind, case, r, extra=None, site_suffix=""):
         r.fail(exc_kind(est), site + ".__init__", exc_detail(est))
         return None
     X = cc.lib_input(kind, case)
+    if case.get("refit"):
+        if kind == "timed":
+            prior = [[(t, 3.0 * ts + 7.0) for t, ts in d] for d in reversed(X)]
+        else:
+            prior = list(reversed(X))
+        if any(len(d) for d in prior):
+            call(est.fit, prior)
     s, M = call(est.fit_transform, X)
     e0 = cc.expectation(kind, case)
     if s == "exc":
@@ -144,7 +153,7 @@ def make_check(kind):
         np = L["np"]
         r = Result()
         r.label(*gc.spec_labels(case["specs"], case["normalize_windows"]))
-        r.label("pruned:%s" % bool(case["prune"]), "tokens:" + case["token_type"])
+        r.label("pruned:%s" % bool(case["prune"]), "tokens:" + case["token_type"], "refit:%s" % bool(case.get("refit")))
         if kind == "timed":
             r.label("base:%g" % case["base"])
         if kind == "ngram":
